@@ -160,6 +160,30 @@ type rzStore struct {
 	// nothing is recorded as ground truth, the inner store is not called
 	failAppend bool
 	failed     bool
+	// gauge: the bytes of every accepted Append added up (an upper bound of MemoryEventStore.nBytes at any time) and the
+	// smallest size limit that was ever in force: while sumBytes <= minLimit the store was never over its limit, so
+	// nothing can have been evicted legitimately (purge runs only while nBytes > maxBytes)
+	sumBytes int
+	minLimit int
+}
+
+// limit records a size limit put in force (n <= 0 = the default)
+func (s *rzStore) limit(n int) {
+	if n <= 0 {
+		n = defaultMaxBytes
+	}
+	if s.minLimit == 0 || n < s.minLimit {
+		s.minLimit = n
+	}
+}
+
+// pressed: has the store ever been (possibly) over its limit?
+func (s *rzStore) pressed() bool {
+	m := s.minLimit
+	if m == 0 {
+		m = defaultMaxBytes
+	}
+	return s.sumBytes > m
 }
 
 type rzAfterHook struct {
@@ -202,6 +226,7 @@ func (s *rzStore) Append(ctx context.Context, sess, stream string, data []byte) 
 	}
 	s.h.sawStream(sess, stream)
 	s.h.appends = append(s.h.appends, rzAppend{sess: sess, stream: stream, data: append([]byte(nil), data...)})
+	s.sumBytes += len(data)
 	s.h.mu.Unlock()
 	return s.inner.Append(ctx, sess, stream, data)
 }
@@ -286,6 +311,10 @@ type rzSess struct {
 	conn    *streamableServerConn
 	streams map[string]string // real stream id -> canonical t<n>
 	nstream int
+	// direct use of the transport (no StreamableHTTPHandler): the application made the StreamableServerTransport itself,
+	// connected it with Server.Connect and hands every HTTP request of the session to transport.ServeHTTP
+	direct *StreamableServerTransport
+	ss     *ServerSession
 }
 
 type rzHarness struct {
@@ -321,6 +350,7 @@ type rzHarness struct {
 	yieldGate chan struct{} // ... on this gate
 	yielded   bool          // a goroutine is parked at the site (the site is instrumented in this tree)
 	lastNote  string        // coverage note of the last op (read by the generator for its tags)
+	stubborn  map[string]bool // handler keys that do not return when their request is cancelled (op `cancel`): they go on until `resp`
 	callKind  map[string]string // tag of a server->client call -> C (sampling) | P (ping) | R (roots/list)
 }
 
@@ -564,6 +594,15 @@ func (h *rzHarness) tool(ctx context.Context, req *CallToolRequest) (*CallToolRe
 	case txt := <-c.respond:
 		return &CallToolResult{Content: []Content{&TextContent{Text: txt}}}, nil
 	case <-ctx.Done():
+		h.mu.Lock()
+		stub := h.stubborn[args.K]
+		h.mu.Unlock()
+		if stub {
+			// a handler that does not watch its context (blocking work): the client's notifications/cancelled does not
+			// make it return; it answers when told to (`resp`), and may go on emitting with its request's context
+			txt := <-c.respond
+			return &CallToolResult{Content: []Content{&TextContent{Text: txt}}}, nil
+		}
 		// Cancelled handlers return one at a time, in request order (drainCancelled): the first response after
 		// the transport was closed still passes the shutdown gate of jsonrpc2 and reaches Write (which drops
 		// its requestStreams entry before failing); which handler that is must not depend on the scheduler.
@@ -677,6 +716,10 @@ func (h *rzHarness) serve(r rzReq) *rzExch {
 	x := &rzExch{h: h, n: len(h.exchs) + 1, sess: sessName, hdr: http.Header{}, budget: r.budget, cancel: cancel}
 	h.exchs = append(h.exchs, x)
 	h.mu.Unlock()
+	var direct *StreamableServerTransport
+	if s := h.sessByName(r.sess); s != nil {
+		direct = s.direct
+	}
 	go func() {
 		defer func() {
 			if rec := recover(); rec != nil {
@@ -688,6 +731,10 @@ func (h *rzHarness) serve(r rzReq) *rzExch {
 			x.ended = true
 			h.mu.Unlock()
 		}()
+		if direct != nil {
+			direct.ServeHTTP(x, req)
+			return
+		}
 		h.handler.ServeHTTP(x, req)
 	}()
 	return x
@@ -806,8 +853,9 @@ func (h *rzHarness) observe(snap ...string) string {
 	return strings.Join(out, " ")
 }
 
-// purgeTokens reports what the in-memory event store has evicted since the last report: `p:<sess>:<stream>:<first>`
-// = the store now holds the log of that stream from index <first> on (read from the real dataList). Stateful
+// purgeTokens reports what the in-memory event store has evicted since the last report: `p:<sess>:<stream>:<first>:<f|u>`
+// = the store now holds the log of that stream from index <first> on (read from the real dataList); f = the store has
+// been over its size limit at some time (the eviction may have been forced), u = it never was (rzStore.pressed). Stateful
 // sessions only (there is no resumption in stateless mode). Called with h.mu held.
 func (h *rzHarness) purgeTokens() []string {
 	if h.store == nil || h.stateless {
@@ -846,8 +894,12 @@ func (h *rzHarness) purgeTokens() []string {
 		return rzStreamLess(pts[i].st, pts[j].st)
 	})
 	var out []string
+	flag := "u"
+	if h.store.pressed() {
+		flag = "f"
+	}
 	for _, p := range pts {
-		out = append(out, fmt.Sprintf("p:%s:%s:%d", p.name, p.st, p.first))
+		out = append(out, fmt.Sprintf("p:%s:%s:%d:%s", p.name, p.st, p.first, flag))
 	}
 	return out
 }
@@ -1006,13 +1058,53 @@ func (h *rzHarness) apply(toks []string) (obs string) {
 		}
 	}
 	switch toks[0] {
-	case "init": // init <sess> id=<n> v=<a|b|c> b=<budget>
+	case "init": // init <sess> id=<n> v=<a|b|c> b=<budget> [dt=1]
 		s := &rzSess{name: toks[1], streams: map[string]string{}}
 		h.mu.Lock()
 		h.sessions = append(h.sessions, s)
 		h.mu.Unlock()
+		if kv["dt"] == "1" {
+			// dt=1: a session served by a StreamableServerTransport the application created and connected itself
+			if h.stateless {
+				return "bad-op"
+			}
+			t := &StreamableServerTransport{SessionID: "verif-direct-" + toks[1]}
+			if h.store != nil {
+				t.EventStore = h.store
+			}
+			t.jsonResponse = h.jsonMode
+			h.mu.Lock()
+			s.realID, s.direct = t.SessionID, t
+			h.byReal[t.SessionID] = s
+			h.mu.Unlock()
+			ss, err := h.server.Connect(context.Background(), t, nil)
+			if err != nil {
+				return "connect-failed"
+			}
+			h.mu.Lock()
+			s.ss, s.conn = ss, t.connection
+			if h.store != nil {
+				h.sawStream(t.SessionID, "")
+			}
+			h.mu.Unlock()
+			synctest.Wait()
+		}
 		id, _ := strconv.Atoi(kv["id"])
 		h.serve(rzReq{method: "POST", sess: toks[1], body: fmt.Sprintf(rzInitBody, id, rzVersion(kv["v"])), budget: rzBudget(kv["b"])})
+		synctest.Wait()
+		return h.observe(toks[1])
+	case "cancel": // cancel <sess> <req> x<post> hv=<ver> : the CLIENT gives up on its request: POST notifications/cancelled {requestId}
+		// (the handler does not return on cancellation; the request is over only when its response is written)
+		key := toks[1] + "." + toks[2] + "." + toks[3]
+		h.mu.Lock()
+		if h.stubborn == nil {
+			h.stubborn = map[string]bool{}
+		}
+		h.stubborn[key] = true
+		h.mu.Unlock()
+		rid, _ := strconv.Atoi(toks[2])
+		body := fmt.Sprintf(`{"jsonrpc":"2.0","method":"notifications/cancelled","params":{"requestId":%d,"reason":"verif"}}`, rid)
+		h.serve(rzReq{method: "POST", sess: toks[1], version: rzVersion(kv["hv"]), body: body, budget: -1})
 		synctest.Wait()
 		return h.observe(toks[1])
 	case "note": // note <sess> hv=<ver> : POST notifications/initialized
@@ -1172,6 +1264,9 @@ func (h *rzHarness) apply(toks []string) (obs string) {
 		if n < 1 {
 			n = 1
 		}
+		h.mu.Lock()
+		h.store.limit(n)
+		h.mu.Unlock()
 		h.store.inner.SetMaxBytes(n)
 		h.store.inner.SetMaxBytes(h.maxBytes)
 		return h.observe()
@@ -1181,6 +1276,9 @@ func (h *rzHarness) apply(toks []string) (obs string) {
 		}
 		n, _ := strconv.Atoi(toks[1])
 		h.maxBytes = n
+		h.mu.Lock()
+		h.store.limit(n)
+		h.mu.Unlock()
 		h.store.inner.SetMaxBytes(n)
 		return h.observe()
 	case "kill": // kill <sess> : the transport is closed underneath the session
@@ -1601,6 +1699,12 @@ func (h *rzHarness) finish() {
 	synctest.Wait()
 	h.handler.closeAll()
 	synctest.Wait()
+	for _, s := range h.sessions {
+		if s.ss != nil {
+			go s.ss.Close()
+		}
+	}
+	synctest.Wait()
 }
 
 // ---------------------------------------------------------------------------------------------
@@ -1655,6 +1759,7 @@ type rzGReq struct {
 	id        int
 	x         int // exchange of the POST
 	responded bool
+	cancelled bool // the client sent notifications/cancelled for it (its handler goes on)
 }
 
 type rzGStream struct {
@@ -1674,6 +1779,7 @@ type rzGSess struct {
 	listen   bool
 	postX    int  // stateless: the POST exchange
 	sub      bool // resources/subscribe was answered: the session is entitled to resources/updated
+	direct   bool // served by transport.ServeHTTP directly (no handler)
 }
 
 type rzGen struct {
@@ -1707,6 +1813,8 @@ type rzGen struct {
 	fanouts   int  // server-level notifications issued from inside a handler
 	pressures int  // resumes with another session's appends (purges) in the middle of the replay
 	maxb      bool // a standing store limit is in force
+	cancels   int  // requests the client cancelled while their handler was running
+	directs   int  // sessions served by transport.ServeHTTP directly
 }
 
 type rzGAgain struct {
@@ -1863,7 +1971,15 @@ func (g *rzGen) newSession() {
 	s := &rzGSess{name: name, streams: map[string]*rzGStream{}}
 	g.sess = append(g.sess, s)
 	v := []string{"a", "b", "c", "c"}[g.pick(4)]
-	g.do(fmt.Sprintf("init %s id=0 v=%s%s", name, v, g.budget()))
+	b := g.budget()
+	if g.prng != nil && g.prng.Intn(100) < 15 {
+		// the application uses the transport directly: no handler in front of it
+		s.direct = true
+		g.directs++
+		g.do(fmt.Sprintf("init %s id=0 v=%s%s dt=1", name, v, b), "init-direct-transport")
+	} else {
+		g.do(fmt.Sprintf("init %s id=0 v=%s%s", name, v, b))
+	}
 	if g.chance(50) {
 		g.do(fmt.Sprintf("note %s hv=%s", name, g.version()))
 	}
@@ -2020,6 +2136,16 @@ func (g *rzGen) call(s *rzGSess) {
 			}
 		}
 	}
+	reuse := false
+	if g.prng != nil {
+		// a client that cancelled a request regards the request as over and its id as free again
+		for _, r := range s.parked() {
+			if r.cancelled && g.prng.Intn(100) < 50 {
+				id, reuse = r.id, true
+				break
+			}
+		}
+	}
 	ids := []int{id}
 	nn := 0
 	legacy := hv == "-" || hv == "a"
@@ -2066,6 +2192,9 @@ func (g *rzGen) call(s *rzGSess) {
 		tag = "call-batch"
 	}
 	tags := []string{tag}
+	if reuse {
+		tags = append(tags, "call-reuses-id-of-cancelled-request")
+	}
 	if len(ids) > 2 {
 		tags = append(tags, "call-batch-3")
 	}
@@ -2262,7 +2391,45 @@ func (g *rzGen) hangingOf(s *rzGSess) []int {
 	return l
 }
 
+// cancelReq: the client gives up on a request whose handler is running (notifications/cancelled); the handler goes on and
+// answers later, may emit meanwhile; the client may reuse the id at once.
+func (g *rzGen) cancelReq() bool {
+	var cands []*rzGSess
+	for _, s := range g.liveSess() {
+		for _, r := range s.parked() {
+			if !r.cancelled {
+				cands = append(cands, s)
+				break
+			}
+		}
+	}
+	if len(cands) == 0 {
+		return false
+	}
+	s := cands[g.prng.Intn(len(cands))]
+	var rs []*rzGReq
+	for _, r := range s.parked() {
+		if !r.cancelled {
+			rs = append(rs, r)
+		}
+	}
+	r := rs[g.prng.Intn(len(rs))]
+	r.cancelled = true
+	g.cancels++
+	tags := []string{"cancel-in-flight-request"}
+	if st := s.streams["t0"]; st != nil && st.att != 0 {
+		tags = append(tags, "cancel-with-standalone-attached")
+	}
+	g.do(fmt.Sprintf("cancel %s %d x%d hv=%s", s.name, r.id, r.x, []string{"-", "a", "b", "c", "c"}[g.prng.Intn(5)]), tags...)
+	return true
+}
+
 func (g *rzGen) stepStateful() {
+	if g.prng != nil && g.nsess > 0 && g.prng.Intn(100) < 6 {
+		if g.cancelReq() {
+			return
+		}
+	}
 	if g.store && g.prng != nil && g.nsess > 0 && g.prng.Intn(100) < 5 {
 		// the store comes under memory pressure: squeeze it once (evicts the oldest entries of every stream)
 		g.purges++
@@ -2471,13 +2638,21 @@ func (g *rzGen) stepStateful() {
 	case r < 97:
 		// DELETE waits for handlers and pending calls: only when there are none
 		if len(parked) == 0 && len(s.calls) == 0 {
+			if s.direct {
+				g.do("delete "+s.name, "delete-direct-405") // the transport serves GET and POST only; the session lives on
+				return
+			}
 			g.do("delete " + s.name)
 			s.gone = true
 			return
 		}
 		g.call(s)
 	default:
-		if g.chance(40) {
+		stuck := false
+		for _, q := range parked {
+			stuck = stuck || q.cancelled // (its handler ignores the cancellation the dying connection sends: not killed now)
+		}
+		if g.chance(40) && !stuck {
 			g.do("kill " + s.name)
 			s.gone = true
 			s.calls = nil
@@ -2621,6 +2796,12 @@ func rzGenCase(t *testing.T, out *verifOut, c int, prop string) (cuts, resumes, 
 		}
 		if g.pressures > 0 {
 			tags = append(tags, "case-with-store-pressure-during-replay")
+		}
+		if g.cancels > 0 {
+			tags = append(tags, "case-with-client-cancel")
+		}
+		if g.directs > 0 {
+			tags = append(tags, "case-with-direct-transport")
 		}
 		out.line(cs, "endcase", "ok", append([]string{"endcase"}, tags...)...)
 		cuts, resumes, races = g.cuts, g.resumes, g.races
